@@ -187,6 +187,7 @@ func (pp c08) Run(c *core.Ctx, idx int) {
 	}
 	o.Sub = idx%5 == 1 // some top-level nodes written in a submodule: "m:name" qualifies them like the module's own
 	o.KeyTypes = []string{"string", "int32", "int64", "uint8", "uint32", "enumeration", "boolean", "int8", "uint16", "uint64", "int16", "identityref", "decimal64"}
+	o.HostileEnumNames = true
 	// the data of every 8th case (and of four fixed ones) lives in Go maps, slices and structs behind nodeutil.Reflect / nodeutil.Node
 	goFixture := idx >= 3 && idx <= 6
 	useGo := idx%8 == 7 || goFixture
